@@ -988,8 +988,14 @@ def create_to_PyList(fmt):
 {PY_helper_static}{hnameproto}
 {{+
 PyObject *out = PyList_New(size);
+if (out == NULL) return NULL;
 for (size_t i = 0; i < size; ++i) {{+
-PyList_SET_ITEM(out, i, {Py_ctor});
+PyObject *item = {Py_ctor};
+if (item == NULL) {{+
+Py_DECREF(out);
+return NULL;
+-}}
+PyList_SET_ITEM(out, i, item);
 -}}
 return out;
 -}}""", fmt),
@@ -1175,8 +1181,14 @@ def add_to_PyList_helper_vector(fmt, ntypemap):
 {{+
 size_t size = in.size();
 PyObject *out = PyList_New(size);
+if (out == NULL) return NULL;
 for (size_t i = 0; i < size; ++i) {{+
-PyList_SET_ITEM(out, i, {Py_ctor});
+PyObject *item = {Py_ctor};
+if (item == NULL) {{+
+Py_DECREF(out);
+return NULL;
+-}}
+PyList_SET_ITEM(out, i, item);
 -}}
 return out;
 -}}""",
